@@ -2267,6 +2267,42 @@ theorem C18_legacy_skip_is_break_witness :
   decide
 
 
+/-- regenerated tie: `FUNCPrint` escapes the parameter names of the `def` line (fixes/C18-18) -/
+theorem C18_tie_params_escaped : paramsEscaped = true := rfl
+/-- regenerated tie: `FUNCPrint` writes the LOCAL initial values (fixes/C18-19) -/
+theorem C18_tie_locals_initialised : localsInitialised = true := rfl
+
+theorem Stmt.instanceOf_zip : ∀ (ps : List String) (args : List Body.V),
+    Body.instanceOf (ps.zip args) = (ps.map pyName).zip args
+  | [], _ => rfl
+  | _ :: _, [] => rfl
+  | p :: ps, a :: as => by
+    simp only [List.zip_cons_cons, List.map_cons]
+    rw [← Stmt.instanceOf_zip ps as]; rfl
+
+theorem Stmt.wf_localsInit : ∀ l : List (String × Option Body.Expr), Stmt.wf (Stmt.localsInit l) = true
+  | [] => rfl
+  | (_, some _) :: rest => by simp [Stmt.localsInit, Stmt.wf, Stmt.wf_localsInit rest]
+  | (_, none) :: rest => by simp [Stmt.localsInit, Stmt.wf_localsInit rest]
+
+/-- **A translated FUNCTION returns what EXPRESS says the call returns**: parameters bound under their escaped names, LOCAL
+variables given their initial values in declaration order, the body of the statement fragment — whenever the reference
+semantics runs the call to a result, the written `def` reaches the same result (same final environment under the escaped
+names, same way of ending), for every function of the fragment, all arguments and every fuel. -/
+theorem C18_function_call_translated (fuel : Nat) (f : Stmt.Func) (args : List Body.V) (r : Stmt.Env × Stmt.Out)
+    (hw : Stmt.wf f.body = true) (hs : Spec.Stmt.call fuel f args = some r) :
+    Stmt.pyCall fuel f args = some (Body.instanceOf r.1, r.2) := by
+  unfold Spec.Stmt.call at hs
+  have hwf : Stmt.wf (.seq (Stmt.localsInit f.locals) f.body) = true := by
+    simp [Stmt.wf, Stmt.wf_localsInit, hw]
+  obtain ⟨p, hp, hx⟩ := C18_function_statements_translated fuel _ _ r hwf hs
+  unfold Stmt.pyCall Stmt.defParams
+  rw [C18_tie_locals_initialised, C18_tie_params_escaped]
+  simp only [if_true, hp]
+  rw [← Stmt.instanceOf_zip]
+  exact hx
+
+
 /-- SKIP in the body of a loop with an UNTIL control (the one exclusion of `Stmt.wf`): `REPEAT i := 1 TO 5 UNTIL i >= 2;
 IF i = 2 THEN SKIP; END_IF; r := r + i; END_REPEAT; RETURN (r)` from r = 0 — EXPRESS evaluates UNTIL after the SKIP and
 ends the loop with r = 1; the written `continue` jumps over the written `if …: break`, the loop goes on into the next iteration and returns 4. -/
